@@ -129,6 +129,8 @@ pub struct Shared {
     /// the same for on_start and for the first on_run pass
     pub start_plans: Vec<Vec<Step>>,
     pub run_plans: Vec<Vec<Step>>,
+    /// peers whose first on_run pass fails (after its plan): the actor runs on_stop(killed=false) and ends as failed
+    pub run_err: Vec<bool>,
 }
 
 impl Shared {
@@ -141,6 +143,10 @@ pub struct Peer {
     me: usize,
     sh: Arc<Shared>,
     ran: bool,
+    /// passes of the on_run plan begun so far (a pass cancelled by an arriving message is begun again, at most
+    /// three times: a plan whose ask makes its callee ask back would otherwise restart forever where nothing
+    /// detects the cycle)
+    passes: u32,
 }
 
 impl Actor for Peer {
@@ -153,16 +159,20 @@ impl Actor for Peer {
             run_plan(&a.1, a.0, plan, 0).await;
             a.1.log(format!("N startDone {}", a.0));
         }
-        Ok(Peer { me: a.0, sh: a.1, ran: false })
+        Ok(Peer { me: a.0, sh: a.1, ran: false, passes: 0 })
     }
     async fn on_run(&mut self, _: &ActorWeak<Self>) -> Result<bool, String> {
         // one pass; a pass that loses the select to an arriving message is started again later
         let plan = self.sh.run_plans.get(self.me - 1).cloned().unwrap_or_default();
-        if !plan.is_empty() && !self.ran {
+        if !plan.is_empty() && !self.ran && self.passes < 3 {
+            self.passes += 1;
             self.sh.log(format!("N runBegin {}", self.me));
             run_plan(&self.sh, self.me, plan, 0).await;
             self.ran = true;
             self.sh.log(format!("N runDone {}", self.me));
+        }
+        if self.sh.run_err.get(self.me - 1).copied().unwrap_or(false) {
+            return Err("scripted on_run error".into());
         }
         Ok(false)
     }
@@ -189,11 +199,28 @@ impl Drop for WaitFlag<'_> {
     }
 }
 
+/// an ask future that is dropped before it completes (an on_run pass that loses the select to an arriving
+/// message or to a kill; unwinding) is a cancellation: logged, so that the history says when the asker stopped waiting
+struct AskDrop<'a> {
+    sh: &'a Arc<Shared>,
+    me: usize,
+    mid: u64,
+    done: bool,
+}
+impl Drop for AskDrop<'_> {
+    fn drop(&mut self) {
+        if !self.done {
+            self.sh.log(format!("N askRet {} {} dropped", self.me, self.mid));
+        }
+    }
+}
+
 async fn do_ask(sh: &Arc<Shared>, me: usize, target: usize, timeout: Option<u64>, plan: Vec<Step>) {
     let mid = sh.next_mid.fetch_add(1, SeqCst);
     let r = sh.peers.lock().unwrap().get(target - 1).cloned().flatten();
     let Some(r) = r else { return };
     sh.log(format!("N askStart {me} {target} {mid}"));
+    let mut guard = AskDrop { sh, me, mid, done: false };
     let res = match timeout {
         None => r.ask(Run { mid, plan }).await,
         Some(d) => r.ask_with_timeout(Run { mid, plan }, Duration::from_millis(d)).await,
@@ -211,6 +238,7 @@ async fn do_ask(sh: &Arc<Shared>, me: usize, target: usize, timeout: Option<u64>
         Err(rsactor::Error::Send { .. }) => "send",
         Err(_) => "other",
     };
+    guard.done = true;
     sh.log(format!("N askRet {me} {mid} {txt}"));
 }
 
@@ -235,6 +263,7 @@ fn run_plan<'a>(sh: &'a Arc<Shared>, me: usize, plan: Vec<Step>, mid: u64) -> fu
                     let r = sh.peers.lock().unwrap().get(target - 1).cloned().flatten();
                     let Some(r) = r else { continue };
                     sh.log(format!("N askStart {me} {target} {mid2}"));
+                    let mut guard = AskDrop { sh, me, mid: mid2, done: false };
                     let res = r.ask_join(RunJ { mid: mid2, plan }).await;
                     let txt = match &res {
                         Ok(v) if *v == mid2 => "ok",
@@ -244,6 +273,7 @@ fn run_plan<'a>(sh: &'a Arc<Shared>, me: usize, plan: Vec<Step>, mid: u64) -> fu
                         Err(rsactor::Error::Join { .. }) => "join",
                         Err(_) => "other",
                     };
+                    guard.done = true;
                     sh.log(format!("N askRet {me} {mid2} {txt}"));
                 }
                 Step::Join(items) => {
@@ -364,6 +394,7 @@ pub fn run_with<F: FnMut(usize, &[bool]) -> Option<String>>(mut next_line: F) ->
                         run_plans: (1..=n)
                             .map(|k| ws.iter().find_map(|w| w.strip_prefix(&format!("run{k}="))).and_then(parse_plan).unwrap_or_default())
                             .collect(),
+                        run_err: (1..=n).map(|k| ws.iter().any(|w| *w == format!("runerr{k}"))).collect(),
                     });
                     let cap: Option<usize> = ws.iter().find_map(|w| w.strip_prefix("cap=")).and_then(|x| x.parse().ok()).filter(|c| *c > 0);
                     for i in 1..=n {
@@ -595,7 +626,13 @@ impl NetGen {
                     if t == k {
                         t = if k == n { 1 } else { k + 1 };
                     }
-                    line.push_str(&format!(" stop{k}=a{t}(-)"));
+                    // ... some of them reach on_stop through a failing on_run pass rather than stop()/kill()
+                    let inner = if self.rng.chance(1, 2) { format!("a{k}(-)") } else { "-".to_string() };
+                    match self.rng.below(4) {
+                        0 => line.push_str(&format!(" stop{k}=a{t}({inner}) runerr{k}")),
+                        1 => line.push_str(&format!(" stop{k}=a{k}(-) runerr{k}")),
+                        _ => line.push_str(&format!(" stop{k}=a{t}(-)")),
+                    }
                 }
                 // ... or whose on_start / first on_run pass does
                 if !self.acyclic && self.rng.chance(1, 4) {
